@@ -256,6 +256,42 @@ def run(chk):
                         nm = enum_name(a)
                         if isinstance(nm, str) and nm.startswith("JOP_"):
                             em.add(nm)
+            # what a conditional branch tests: "is nil" or "is truthy".  The generic bodies spell the nil test as
+            # LOAD_NIL r; EQUALS r r x; JUMP_IF r, the inline emitters as JUMP_IF_(NOT_)NIL x - the same class.
+            inline_kinds = set()
+            for o in em:
+                if o in ("JOP_JUMP_IF_NIL", "JOP_JUMP_IF_NOT_NIL"):
+                    inline_kinds.add("nil")
+                elif o in ("JOP_JUMP_IF", "JOP_JUMP_IF_NOT"):
+                    inline_kinds.add("truthy")
+            if inline_kinds and init is not None:
+                words = [e.v for e in init.kids if e.v is not None]
+                E = prog.enums
+                gen_kinds = set()
+                for i, w in enumerate(words):
+                    op = w & 0x7F
+                    if op in (E.get("JOP_JUMP_IF_NIL"), E.get("JOP_JUMP_IF_NOT_NIL")):
+                        gen_kinds.add("nil")
+                    elif op in (E.get("JOP_JUMP_IF"), E.get("JOP_JUMP_IF_NOT")):
+                        r = (w >> 8) & 0xFF
+                        kind = "truthy"
+                        for pw in reversed(words[:i]):
+                            if ((pw >> 8) & 0xFF) != r:
+                                continue
+                            if (pw & 0x7F) == E.get("JOP_EQUALS"):
+                                a, b = (pw >> 16) & 0xFF, (pw >> 24) & 0xFF
+                                nils = set((x >> 8) & 0xFF for x in words[:i] if (x & 0x7F) == E.get("JOP_LOAD_NIL"))
+                                if a in nils or b in nils:
+                                    kind = "nil"
+                            break
+                        gen_kinds.add(kind)
+                chk.instance(rule)
+                if inline_kinds != gen_kinds:
+                    chk.violation(rule, "cfuns.c", doname, "%s:branch" % t, dofn.loc,
+                                  "inline %s branches on %s but the generic body %s branches on %s: the two routes disagree "
+                                  "for false (truthy vs nil test)" % (doname, sorted(inline_kinds), arr.name, sorted(gen_kinds)))
+                else:
+                    chk.ok(rule, "%s: inline and generic both branch on %s" % (t, sorted(gen_kinds)))
             main = [o for o in em if o not in ("JOP_JUMP_IF_NOT_NIL", "JOP_JUMP_IF", "JOP_MOVE_NEAR", "JOP_LOAD_NIL", "JOP_JUMP")]
             chk.instance(rule)
             if body_ops and main and not any(prog.enums.get(o) in body_ops for o in main):
